@@ -98,7 +98,12 @@ func c10Gen(r *driver.Rand, thorough bool) *driver.Plan {
 	if r.Chance(1, 6) {
 		p.SetX("boxed", 1) // elements and accumulators are pointers, Combine works in place
 	}
-	lateReader := r.Chance(1, 8)
+	// Not drawn (it was, after seeded change C10-w4m1): cancelling the context
+	// after the fold completed and reading the result only then. C10 does not
+	// quantify over cancellation, so what a cancelled fork.Fold still hands
+	// over is left open — an unbuffered hand-over guarded by ctx.Done() is as
+	// good as the buffered one.
+	lateReader := false
 	p.Cap = genCap(r)
 	if r.Chance(1, 2) {
 		k := 1 + r.Intn(4)
